@@ -251,9 +251,37 @@ def r06_4(ctx):
               f"var {sorted(forms['var'])} vs s_var {sorted(forms['s_var'])}" + ("" if same else ": the partial and the full variance of the same complex field differ"), F)
 
 
+def r06_5(ctx):
+    """a lossy cast of a dot-product operand is guarded by that operand's own dtype test"""
+    m = ctx.model
+    dd = m.module(DD)
+    ctx.rule("R06.5", "in the dot-product back ends an operand is cast to float64 only under a test of its OWN dtype being integer "
+                      "(a cast triggered by the other operand silently drops the imaginary part of a complex operand)", floor=2)
+    for fi in dd.all_functions:
+        if fi.name not in ("vdot", "_scipy_vdot"):
+            continue
+        cfg = cfg_of(fi)
+        for n in cfg.nodes:
+            if n.kind != "stmt" or not isinstance(n.ast, ast.Assign):
+                continue
+            tg = n.ast.targets[0]
+            pairs = []
+            if isinstance(tg, ast.Name):
+                pairs = [(tg.id, n.ast.value)]
+            elif isinstance(tg, ast.Tuple) and isinstance(n.ast.value, ast.Tuple) and len(tg.elts) == len(n.ast.value.elts):
+                pairs = [(t.id, v) for t, v in zip(tg.elts, n.ast.value.elts) if isinstance(t, ast.Name)]
+            for nm, v in pairs:
+                if isinstance(v, ast.Call) and call_name(v) == "astype" and src(v.func.value) == nm and "float" in src(v):
+                    atoms = known_atoms(cfg, n.id)
+                    own = any(pol and src(t) == f"np.issubdtype({nm}.dtype, np.integer)" for t, pol in atoms)
+                    ctx.check("R06.5", f"{fi.key}::`{nm} = {src(v)}` only if {nm} itself is an integer array", own,
+                              f"guards {[('' if p else 'not ') + src(t) for t, p in atoms]}", fi, n.ast)
+
+
 _run_c06 = run
 
 
 def run(ctx):  # noqa: F811
     _run_c06(ctx)
     r06_4(ctx)
+    r06_5(ctx)
